@@ -129,6 +129,78 @@ func runC15(c *fw.Ctx) {
 			}
 		})
 	}
+	// ---- the activation output is consumed by Log (log-likelihoods): Sigmoid at inputs of -28..-40, where the output is 1e-13..1e-18 - an
+	// ordinary double - and d log(s(x)) / dx = 1 - s; and a ONE-ELEMENT activation output (a gate of shape [1] or [1,1]) is the RECEIVER of
+	// a product with an untracked tensor of many elements ----
+	for i := 0; i < c.Pick(400, 8000); i++ {
+		c.Case(func(k *fw.K) {
+			r := k.Rng
+			if r.Intn(2) == 0 {
+				shape := RandShape(r, 0, 2, 3)
+				x := ref.Zeros(shape)
+				for j := range x.Data {
+					x.Data[j] = -(28 + 12*r.Float64())
+					if r.Intn(4) == 0 {
+						x.Data[j] = -3 * r.Float64()
+					}
+				}
+				g := randG(k, shape)
+				p := ref.Prog{{Op: "leaf", Shape: shape, Data: x.Data, Tracked: true}, {Op: "sigmoid", In: []int{0}}, {Op: "log", In: []int{1}},
+					{Op: "leaf", Shape: shape, Data: g.Data}, {Op: "mul", In: []int{2, 3}}}
+				vals, err := p.Eval()
+				if err != nil {
+					k.Failf("harness: %v", err)
+					return
+				}
+				k.Case = c01case{Family: "log of a Sigmoid output of 1e-13..1e-18", Prog: p, Roots: []int{4}}
+				k.Key("log-of-sigmoid/%s", shapeKey(shape))
+				k.Count("log_of_activation_cases", 1)
+				var ts []tensor.Tensor
+				if pn := call(func() {
+					if ts, err = rt.Run(p); err == nil {
+						err = tensor.BackPropagate(ts[4])
+					}
+				}); pn != nil || err != nil {
+					k.Failf("log(Sigmoid(x)): panic=%v err=%v", pn, err)
+					return
+				}
+				want, scale := p.GradS(vals, 4, nil, ref.RuleSum)
+				if msg := checkGradsScaled(ts[:1], want[:1], scale[:1], "log(Sigmoid(x)) at x = -28..-40 (the activation input)"); msg != "" {
+					k.Failf("%s", msg)
+				}
+				return
+			}
+			gate := [][]int{{1}, {1, 1}, {1, 1, 1}}[r.Intn(3)]
+			other := append(RandShape(r, 0, 1, 3), 2+r.Intn(3))
+			for len(other) < len(gate) {
+				other = append([]int{1 + r.Intn(2)}, other...)
+			}
+			specs := actSpecs(0)
+			sp := specs[r.Intn(len(specs))]
+			a, h := Shuffled(r, Unique(r, gate, 0.3, 1.5)), Shuffled(r, Unique(r, other, 0.3, 2))
+			in := sp.in
+			in.In = []int{0}
+			p := ref.Prog{{Op: "leaf", Shape: gate, Data: a.Data, Tracked: true}, in, {Op: "leaf", Shape: other, Data: h.Data}, {Op: "mul", In: []int{1, 2}}}
+			vals, err := p.Eval()
+			if err != nil {
+				k.Failf("harness: %v", err)
+				return
+			}
+			k.Case = c01case{Family: "one-element " + sp.name + " output as the receiver of a product with an untracked tensor", Prog: p, Roots: []int{3}}
+			k.Key("one-element-gate/%s/%s/%s", sp.name, shapeKey(gate), shapeKey(other))
+			k.Count("one_element_gate_cases", 1)
+			var ts []tensor.Tensor
+			if pn := call(func() {
+				if ts, err = rt.Run(p); err == nil {
+					err = tensor.BackPropagate(ts[3])
+				}
+			}); pn != nil || err != nil {
+				k.Failf("%s(a).Mul(h) with a of shape %v and h of shape %v: panic=%v err=%v", sp.name, gate, other, pn, err)
+				return
+			}
+			checkGradsClassified(k, ts, p, vals, 3, nil, fmt.Sprintf("%s(a).Mul(h), a tracked of shape %v, h untracked of shape %v", sp.name, gate, other))
+		})
+	}
 	// ---- (ii) interior inputs ----
 	for i := 0; i < c.Pick(6000, 400000); i++ {
 		c.Case(func(k *fw.K) { c15Upstream(k) })
